@@ -64,18 +64,35 @@ static int64_t  g_clock_base = 0;    /* seconds */
 static int64_t  g_clock_step_ns = 0; /* advance per read */
 static int64_t  g_clock_jump_every = 0; /* every n-th read jumps backwards */
 static int64_t  g_clock_reads = 0;
+static int      g_clock_mono = 1;    /* also simulate CLOCK_MONOTONIC & co (tier L turns this off: its own scheduler needs real timeouts) */
 static int64_t  g_clock_now_ns = 0;
 static int      g_pid = 0;
 static int      g_rd_rate = 0, g_wr_rate = 0;     /* per-256 probability of short / EINTR */
 static long     g_rd_fail_at = -1, g_wr_fail_at = -1, g_wr_crash_at = -1;
 static int      g_rd_errno = EIO, g_wr_errno = ENOSPC;
 static long     g_rd_calls = 0, g_wr_calls = 0;
+static long     g_soft_left = 4000;  /* budget of retryable faults (short / EINTR) per process */
 static int      g_log_fd = -1;
 static char     g_src_suffix[64] = ".pdl";
 static unsigned char g_fdclass[1024]; /* 0 unknown, 1 source, 2 sink */
 static long     g_cnt_getrandom, g_cnt_clock, g_cnt_getpid;
 
 static long raw_write(int fd, const void *b, size_t n) { return syscall(SYS_write, fd, b, n); }
+
+/* the event log is buffered (one syscall per 32 KiB, flushed at exit and before a crash):
+   logging must stay cheap and must never perturb the program under test */
+static char   g_logbuf[32768];
+static size_t g_loglen = 0;
+static void log_flush(void) {
+    if (g_log_fd >= 0 && g_loglen > 0) raw_write(g_log_fd, g_logbuf, g_loglen);
+    g_loglen = 0;
+}
+static void log_append(const char *b, size_t n) {
+    if (g_log_fd < 0) return;
+    if (g_loglen + n > sizeof g_logbuf) log_flush();
+    if (n > sizeof g_logbuf) { raw_write(g_log_fd, b, n); return; }
+    memcpy(g_logbuf + g_loglen, b, n); g_loglen += n;
+}
 
 static void logline(const char *kind, long a, long b, long c) {
     if (g_log_fd < 0) return;
@@ -90,7 +107,7 @@ static void logline(const char *kind, long a, long b, long c) {
         while (k) buf[n++] = t[--k];
     }
     buf[n++] = '\n';
-    raw_write(g_log_fd, buf, n);
+    log_append(buf, n);
 }
 
 static void logpath(const char *kind, const char *path) {
@@ -100,7 +117,7 @@ static void logpath(const char *kind, const char *path) {
     buf[n++] = ' ';
     for (const char *p = path; *p && n < 590; p++) buf[n++] = (*p == '\n' || *p == ' ') ? '_' : *p;
     buf[n++] = '\n';
-    raw_write(g_log_fd, buf, n);
+    log_append(buf, n);
 }
 
 static int64_t parse_i64(const char *s) { return strtoll(s, 0, 10); }
@@ -137,6 +154,7 @@ static void load_plan(const char *path) {
         else if (!strcmp(k, "wr_crash_at")) g_wr_crash_at = atol(v);
         else if (!strcmp(k, "heap_shift")) heap_shift = atol(v);
         else if (!strcmp(k, "mmap_shift")) mmap_shift = atol(v);
+        else if (!strcmp(k, "soft_budget")) g_soft_left = atol(v);
         else if (!strcmp(k, "src_suffix")) { strncpy(g_src_suffix, v, sizeof g_src_suffix - 1); }
         else if (!strcmp(k, "log")) { strncpy(logpath, v, sizeof logpath - 1); }
     }
@@ -174,6 +192,7 @@ __attribute__((constructor)) static void pdlsim_init(void) {
 
 __attribute__((destructor)) static void pdlsim_fini(void) {
     if (g_active) logline("end", g_rd_calls, g_wr_calls, g_cnt_getrandom);
+    log_flush();
 }
 
 /* ---------- in-process control (tier L driver finds these with dlsym) ---------- */
@@ -187,6 +206,7 @@ void pdlsim_set_clock(int64_t base_s, int64_t step_ns, int64_t jump_every) {
     g_clock_now_ns = 0; g_clock_reads = 0;
 }
 void pdlsim_clock_off(void) { g_clock_on = 0; }
+void pdlsim_clock_mono(int on) { g_clock_mono = on; }
 /* real monotonic time for the harness's own wall-clock budget (never visible to the code under test) */
 int64_t pdlsim_real_ns(void) {
     struct timespec ts;
@@ -225,7 +245,7 @@ static void sim_now(struct timespec *ts) {
     g_cnt_clock++;
 }
 int clock_gettime(clockid_t id, struct timespec *ts) {
-    if (!g_clock_on) return syscall(SYS_clock_gettime, id, ts);
+    if (!g_clock_on || (!g_clock_mono && id != CLOCK_REALTIME && id != CLOCK_REALTIME_COARSE)) return syscall(SYS_clock_gettime, id, ts);
     sim_now(ts);
     logline("clock", (long)id, (long)ts->tv_sec, 0);
     return 0;
@@ -307,12 +327,12 @@ static int rd_fault(int fd, size_t *count) {
     if (!g_active || fd < 0 || fd >= 1024 || g_fdclass[fd] != 1 || *count == 0) return 0;
     long idx = g_rd_calls++;
     if (idx == g_rd_fail_at) { logline("rd_hard", fd, g_rd_errno, idx); errno = g_rd_errno; return -1; }
-    if (g_rd_rate > 0) {
+    if (g_rd_rate > 0 && g_soft_left > 0) {
         uint64_t r = rng_next(&g_io_rng);
         if ((int)(r & 0xff) < g_rd_rate) {
-            if (((r >> 8) & 3) == 0) { logline("rd_eintr", fd, 0, idx); errno = EINTR; return -1; }
+            if (((r >> 8) & 3) == 0) { g_soft_left--; logline("rd_eintr", fd, 0, idx); errno = EINTR; return -1; }
             size_t k = 1 + ((r >> 16) % 7);
-            if (k < *count) { *count = k; logline("rd_short", fd, (long)k, idx); }
+            if (k < *count) { g_soft_left--; *count = k; logline("rd_short", fd, (long)k, idx); }
         }
     }
     return 0;
@@ -345,15 +365,16 @@ static int wr_fault(int fd, size_t *count) {
     if (idx == g_wr_crash_at) {
         logline("wr_crash", fd, (long)*count, idx);
         logline("end", g_rd_calls, g_wr_calls, g_cnt_getrandom);
+        log_flush();
         syscall(SYS_exit_group, 137);
     }
     if (idx == g_wr_fail_at) { logline("wr_hard", fd, g_wr_errno, idx); errno = g_wr_errno; return -1; }
-    if (g_wr_rate > 0) {
+    if (g_wr_rate > 0 && g_soft_left > 0) {
         uint64_t r = rng_next(&g_io_rng);
         if ((int)(r & 0xff) < g_wr_rate) {
-            if (((r >> 8) & 3) == 0) { logline("wr_eintr", fd, 0, idx); errno = EINTR; return -1; }
+            if (((r >> 8) & 3) == 0) { g_soft_left--; logline("wr_eintr", fd, 0, idx); errno = EINTR; return -1; }
             size_t k = 1 + ((r >> 16) % 7);
-            if (k < *count) { *count = k; logline("wr_short", fd, (long)k, idx); }
+            if (k < *count) { g_soft_left--; *count = k; logline("wr_short", fd, (long)k, idx); }
         }
     }
     return 0;
